@@ -5,7 +5,7 @@ From SF Require Import Model.Bytes Model.F64 Model.ShapeType Model.Shapes Model.
   Model.Prog Model.Decode Model.Reader Spec.Esri Spec.Denote Spec.Layout.
 From SF Require Import Proofs.WriterCore Proofs.WriterInv Proofs.WriterFaults Proofs.EncodeRef Proofs.LayoutConf Proofs.RoundTrip
   Proofs.ReaderSeq Proofs.CrashRead Proofs.CrashStates Proofs.CrashTheorem Proofs.TornLength Proofs.HeaderMix Proofs.CrashCommit
-  Proofs.CommitTheorem.
+  Proofs.CommitTheorem Proofs.IndexReader Proofs.IndexFiles Proofs.CrashIndex Proofs.CrashStatesShx Proofs.CrashIndexTheorem.
 Open Scope Z_scope.
 
 (** The crash model is the property's own: what was persisted is the result
@@ -119,6 +119,88 @@ Theorem C11_committed_readable : forall (hs : bool) (cs1 cs2 : list wcall) (e : 
 Proof. exact committed_readable. Qed.
 Print Assumptions C11_committed_readable.
 
+(** ** The route through the index
+
+    Reader side, general: with ANY index whose entries address records of a
+    file ([Indexed]: any order, gaps, filler), on ANY truncation of that file,
+    the reader fails to open or answers index entry i with the record it
+    addresses when that record lies wholly inside the retained bytes, and with
+    UnexpectedEof otherwise ([item_at]) — never a shape that is not in the
+    file, never one out of index order, never a panic. *)
+Theorem C11_read_index_truncated : forall (req : option shape_type) (data : bytes) (idx : list (Z * Z))
+    (recs : list (Z * ref_rec)) (K : Z) (fuel : nat),
+  Indexed req data idx recs -> 0 <= K ->
+  let cut := firstn (Z.to_nat K) data in
+  (exists r s', run (r_with_shx idx) (src_of cut) = (r, s') /\ forall st, r <> Ok st) \/
+  (exists st' s',
+     run (st <-- r_with_shx idx ;; it_pull fuel req st) (src_of cut)
+     = (Ok (firstn fuel (items_all K idx recs), (length (items_all K idx recs) <? fuel)%nat, st'), s')).
+Proof. exact crash_read_index. Qed.
+Print Assumptions C11_read_index_truncated.
+
+(** What a reader makes of a crash state of the .shx — any 100 bytes followed by
+    a byte-prefix of the true index entries: reading the index fails, or
+    returns a prefix of the true entries (a torn entry is never returned, a
+    header announcing more entries than are there makes the read fail). *)
+Theorem C11_index_from_crash_state : forall (Hx' : bytes) (entries : list (Z * Z)) (mx : nat) (idx : list (Z * Z)) (s' : src),
+  length Hx' = 100%nat -> Forall (fun e => in_i32 (fst e) /\ in_i32 (snd e)) entries ->
+  run read_index_file (src_of (Hx' ++ firstn mx (index_bytes entries))) = (Ok idx, s') ->
+  exists c, idx = firstn c entries /\ (c <= length entries)%nat.
+Proof. exact read_index_crash. Qed.
+Print Assumptions C11_index_from_crash_state.
+
+(** Together, for files laid out in index order (what the writer produces):
+    any 100 bytes in front of any byte-prefix of the records, read with any
+    prefix of the true index: the reader fails to open, or yields a prefix of
+    the records followed by UnexpectedEof errors only. *)
+Theorem C11_crash_index_ordered : forall (req : option shape_type) (H' : bytes) (rs : list (Z * ref_rec)) (m c fuel : nat),
+  length H' = 100%nat -> Forall (record_ok req) rs -> zlen (ref_records_bytes rs) < two31 * 4 ->
+  let shp := H' ++ firstn m (ref_records_bytes rs) in
+  let idx := firstn c (ref_index_entries 50 rs) in
+  (exists r s', run (r_with_shx idx) (src_of shp) = (r, s') /\ forall st, r <> Ok st) \/
+  (exists j st' s',
+     run (st <-- r_with_shx idx ;; it_pull fuel req st) (src_of shp)
+     = (Ok (firstn fuel (map (fun nr => Ok (denote (snd nr))) (firstn j (firstn c rs))
+                         ++ map (fun _ => Err EIoEof) (skipn j (firstn c rs))),
+            (length (firstn c rs) <? fuel)%nat, st'), s')).
+Proof. exact crash_read_index_ordered. Qed.
+Print Assumptions C11_crash_index_ordered.
+
+(** Writer side for the second destination: every byte-level prefix of the
+    .shx operation sequence of any history leaves Hx' ++ (byte-prefix of the
+    index entries of the accepted shapes). *)
+Theorem C11_crash_states_shx : forall (cs : list wcall) (e : wending),
+  Forall call_ok cs ->
+  forall p, is_prefix p (explode (trace (w_shx (snd (run_history true world0 cs e))))) ->
+  crash_form (index_from 50 (accepted_acc [] cs)) (fst (bp_ops p ([], 0%nat))).
+Proof. exact crash_states_shx. Qed.
+Print Assumptions C11_crash_states_shx.
+
+(** The property for readers opened WITH the index: whatever prefix of the
+    .shp operations and, independently, whatever prefix of the .shx operations
+    was persisted (cuts inside writes included), if the index can be read at
+    all, then the reader either fails to open or answers the index entries
+    with a prefix of the written shapes ([on_read] of them) followed by
+    UnexpectedEof errors only: never a shape that was not written, never a
+    reordered one, never a panic. *)
+Theorem C11_crash_prefix_index : forall (cs : list wcall) (e : wending) (req : option shape_type) (fuel : nat),
+  Forall call_ok cs ->
+  let ss := accepted_acc [] cs in
+  Forall shape_ok ss -> FileFits ss -> RecordsFit ss -> (req = None \/ req = Some (file_type ss)) ->
+  let w := snd (run_history true world0 cs e) in
+  forall p, is_prefix p (explode (trace (w_shp w))) ->
+  forall px, is_prefix px (explode (trace (w_shx w))) ->
+  let shp := fst (bp_ops p ([], 0%nat)) in
+  let shx := fst (bp_ops px ([], 0%nat)) in
+  forall idx sx, run read_index_file (src_of shx) = (Ok idx, sx) ->
+  (exists r s', run (r_with_shx idx) (src_of shp) = (r, s') /\ forall st, r <> Ok st) \/
+  (exists j n st' s', (j <= n)%nat /\ (n <= length ss)%nat /\
+     run (st <-- r_with_shx idx ;; it_pull fuel req st) (src_of shp)
+     = (Ok (firstn fuel (map (fun s => Ok (on_read s)) (firstn j ss) ++ repeat (Err EIoEof) (n - j)),
+            (n <? fuel)%nat, st'), s')).
+Proof. exact crash_prefix_index. Qed.
+Print Assumptions C11_crash_prefix_index.
+
 (** Non-vacuity: a crash 11 bytes into the second record (before any finalize: the placeholder header still declares an empty file). *)
 Example C11_example :
   let p := SPoint XY (mkpt 1 2 0 0) in
@@ -152,4 +234,18 @@ Proof.
   - vm_compute. repeat constructor.
   - vm_compute. reflexivity.
 Qed.
+
+(** Non-vacuity of the index route: two points, both files cut: the .shx after
+    its first finalize (2 entries announced and present), the .shp 11 bytes
+    into the second record: the reader yields the first point, then an error. *)
+Example C11_example_index :
+  let p := SPoint XY (mkpt 1 2 0 0) in
+  let w := snd (run_history true world0 [CWrite p; CWrite p] EDrop) in
+  let cutp := firstn 140 (explode (trace (w_shp w))) in
+  let shp := fst (bp_ops cutp ([], 0%nat)) in
+  let shx := fst (bp_ops (explode (trace (w_shx w))) ([], 0%nat)) in
+  exists idx, fst (run read_index_file (src_of shx)) = Ok idx /\ length idx = 2%nat /\
+    fst (run (st <-- r_with_shx idx ;; x <-- it_pull 5 None st ;; Ret (fst (fst x))) (src_of shp))
+    = Ok [Ok p; Err EIoEof].
+Proof. cbv zeta. eexists. split; [vm_compute; reflexivity|]. split; vm_compute; reflexivity. Qed.
 
